@@ -25,11 +25,11 @@ CONFIGS = {
         "quick": [("Asm.tla", "Asm_cf_q.cfg", 3), ("Asm.tla", "Asm_data_q.cfg", 2),
                   ("Asm.tla", "Asm_enc_q.cfg", 2), ("Asm.tla", "Asm_cfi_q.cfg", 1.5),
                   ("Asm.tla", "Asm_ops_q.cfg", 1.5), ("Asm.tla", "Asm_str_q.cfg", 3),
-                  ("Asm.tla", "Asm_strc_q.cfg", 1)],
+                  ("Asm.tla", "Asm_strc_q.cfg", 1), ("Asm.tla", "Asm_x86ops_q.cfg", 1)],
         "thorough": [("Asm.tla", "Asm_cf_t.cfg", 3), ("Asm.tla", "Asm_data_t.cfg", 2),
                      ("Asm.tla", "Asm_enc_t.cfg", 2), ("Asm.tla", "Asm_cfi_t.cfg", 1.5),
                      ("Asm.tla", "Asm_ops_t.cfg", 1.5), ("Asm.tla", "Asm_str_t.cfg", 3),
-                     ("Asm.tla", "Asm_strc_t.cfg", 1)],
+                     ("Asm.tla", "Asm_strc_t.cfg", 1), ("Asm.tla", "Asm_x86ops_t.cfg", 1)],
     },
     "C13": {
         "quick": [("Asm.tla", "Asm_sym_q.cfg", 2), ("Asm.tla", "Asm_chunk_q.cfg", 2),
